@@ -62,8 +62,10 @@ def run_pool(modname, shard_descs, t_end):
         with ProcessPoolExecutor(max_workers=min(NPROC, len(shard_descs)), mp_context=ctx,
                                  max_tasks_per_child=40) as ex:
             outs = list(ex.map(_worker, [(modname, d, t_end) for d in shard_descs]))
-    for o in outs:  # shard order: deterministic merge
+    for o, d in zip(outs, shard_descs):  # shard order: deterministic merge
         if o[0] == 'ok':
+            for g in o[1].fail_groups.values():
+                g.setdefault('shard', d)
             total.merge(o[1])
         else:
             errors.append(o)
@@ -75,7 +77,7 @@ def write_replay(prop, modname, group, exemplar, shard=None):
     payload = {
         'property': prop, 'check': modname, 'kind': group['kind'], 'features': group['features'],
         'case': exemplar['case'], 'expected': exemplar.get('expected'), 'observed': exemplar.get('observed'),
-        'traceback': exemplar.get('traceback'), 'note': exemplar.get('note'),
+        'traceback': exemplar.get('traceback'), 'note': exemplar.get('note'), 'shard': shard,
         'how_to_replay': 'bin/vcheck replay <this file>',
     }
     mod = load_check(modname)
@@ -108,7 +110,15 @@ def replay_main(path, as_json=False):
     with open(path) as f:
         payload = json.load(f)
     mod = load_check(payload['check'])
-    fails = mod.replay_case(payload['case'])
+    if payload.get('shard') is not None:
+        from .result import Deadline
+        res = mod.run_shard(payload['shard'], Deadline(time.time() + 3600))
+        fails = [{'kind': g['kind'], 'features': g['features'], 'observed': g['exemplars'][0]['observed'],
+                  'expected': g['exemplars'][0]['expected'], 'traceback': g['exemplars'][0]['traceback']}
+                 for g in res.fail_groups.values()
+                 if g['kind'] == payload['kind'] and g['features'] == payload['features']]
+    else:
+        fails = mod.replay_case(payload['case'])
     verdict = {'fails': bool(fails), 'groups': sorted({(k, json.dumps(f, sort_keys=True, default=str)) for k, f in
                                                      [(x['kind'], x['features']) for x in fails]}),
                'observed': [x.get('observed') for x in fails][:3]}
@@ -158,6 +168,7 @@ def run_check(prop, tier, seed):
         else:
             new_groups.append(g)
 
+    _dump_groups(prop, total)
     violations = []
     nondet = []
     for gi, g in enumerate(new_groups):
@@ -170,9 +181,15 @@ def run_check(prop, tier, seed):
                 nondet.append((path, v1, v2))
                 continue
             if not v1['fails']:
-                # warm-only failure (module-level state): not reproducible from a fresh process alone
-                nondet.append((path, 'fails in worker, passes fresh', v1))
-                continue
+                # warm-only failure: an earlier case of the same shard changed module-level state.  Re-run the
+                # whole shard in a fresh process; if the same failure group reappears it is a real, history-
+                # dependent violation whose replay artefact is the shard; otherwise the harness is at fault.
+                spath = write_replay(prop, modname, g, ex, shard=g.get('shard'))
+                s1 = fresh_replay(spath) if g.get('shard') is not None else {'fails': False}
+                if not s1['fails']:
+                    nondet.append((path, 'fails in worker, passes fresh (case and shard)', v1))
+                    continue
+                path = spath
         violations.append((g, path))
 
     for hid in sorted(known_hit):
@@ -196,6 +213,14 @@ def run_check(prop, tier, seed):
             print('HARNESS-NONDETERMINISM replay=%s %s' % (n[0], json.dumps(n[1:], default=repr)[:500]))
         return 3
     return 1 if violations else 0
+
+
+def _dump_groups(prop, total):
+    d = os.path.join(ROOT, 'replays', prop)
+    os.makedirs(d, exist_ok=True)
+    with open(os.path.join(d, '_groups.json'), 'w') as f:
+        json.dump([{'kind': g['kind'], 'features': g['features'], 'count': g['count'],
+                    'exemplar': g['exemplars'][0]} for g in total.fail_groups.values()], f, indent=1, default=repr)
 
 
 def _write_evidence(mod, prop, tier, seed, total, t0, violations, known_hit, harness_error=False):
